@@ -88,6 +88,10 @@ def cases(tier, seed):
             out.append({"kind": "patterns", "cls": "component_patterns", "pattern": pat, "idx": idx, "seed": seed})
             idx += 1
     # long runs on ill-conditioned full-rank input (enough iterations for the smallest singular directions to converge)
+    for k in range(6 if tier == "quick" else 24):
+        out.append({"kind": "longrun", "cls": "longrun_two_clusters", "idx": idx, "seed": seed, "maxd": maxd,
+                    "gap": [1e-10, 1e-8, 1e-10, 1e-12, 1e-9, 1e-10][k % 6], "gamma": [1.0, 1.0, 0.9, 1.0, 1.0, 0.5][k % 6]})
+        idx += 1
     for k in range(12 if tier == "quick" else 96):
         out.append({"kind": "longrun", "cls": "longrun_ill_conditioned", "idx": idx, "seed": seed, "maxd": maxd})
         idx += 1
@@ -521,10 +525,19 @@ def _longrun(spec, ctx, R):
     s = np.geomspace(kap, 1.0, r) * float(rng.choice([1e-3, 1.0, 1e3]))
     if r == 1:
         kap = 1.0
+    gap_ = spec.get("gap")
+    if gap_:
+        # TWO CLUSTERS: singular values 1 .. 0.5 and one far below them (1e-8, 1e-10): while the large ones sit at the rounding floor the small
+        # one still has t ~ 1e-20 .. 1e-16 and changes every monitored norm by less than an ulp per step - yet it must keep doubling
+        m, n = max(m, 3), max(n, 3)
+        r = min(m, n)
+        kap = 1.0 / gap_
+        s = np.concatenate([np.linspace(1.0, 0.5, r - 1), [gap_]])
+        ctx.hit("spectrum:two_clusters_wide_gap")
     A, U, V = refq.with_singular_values(rng, m, n, s)
     nrmA = refq.fro(A)
-    gamma = float(rng.choice([1.0, 0.5]))
-    third = spec["idx"] % 5 == 4
+    gamma = float(rng.choice([1.0, 0.5])) if not gap_ else float(spec.get("gamma", 1.0))
+    third = spec["idx"] % 5 == 4 and not gap_
     rate = 1.58 if third else (1.0 if gamma == 1.0 else 0.58)
     K = int(np.ceil(np.log2(kap * kap * r) / rate)) + 10
     Xm, ts = model_iterates(U, V, s, gamma, K, third=third, norm2=nrmA * nrmA)
